@@ -165,6 +165,17 @@ func solveSeed(script string, timeoutS int, only string, seed int) solveResult {
 // solveStaged first asks z3 5.1.0 alone with a short timeout (it wins most
 // races), then races the whole portfolio with the full timeout.
 func solveStaged(script string, timeoutS int) solveResult {
+	return solveStagedF(script, timeoutS, false)
+}
+
+// solveLeaf is solveStaged for a query whose failure would be reported: after the seed retries it
+// makes one last attempt with four times the time limit, so that a loaded machine does not turn a
+// slow proof into an alarm.
+func solveLeaf(script string, timeoutS int) solveResult {
+	return solveStagedF(script, timeoutS, true)
+}
+
+func solveStagedF(script string, timeoutS int, final bool) solveResult {
 	if os.Getenv("GVC_NOSTAGE") == "" {
 		r := solve(script, 2, "z3-5.1.0")
 		if r.Result == "unsat" || r.Result == "sat" {
@@ -176,6 +187,11 @@ func solveStaged(script string, timeoutS int) solveResult {
 	// after it resisted three different seeds on all three solvers
 	for extra := 1; extra <= 2 && r.Result != "unsat" && r.Result != "sat"; extra++ {
 		r2 := solveSeed(script, timeoutS, "", solverSeed+7919*extra)
+		r2.TimeS += r.TimeS
+		r = r2
+	}
+	if final && r.Result != "unsat" && r.Result != "sat" {
+		r2 := solveSeed(script, 4*timeoutS, "", solverSeed+104729)
 		r2.TimeS += r.TimeS
 		r = r2
 	}
